@@ -68,9 +68,7 @@ theorem grow_only_outside_recovery (s s' : St) (i : Inp) (e : Nat) (a : Ack) (l 
 neither `Acked` nor already reported) and satisfies the time threshold or the (index-based) packet threshold;
 packets already `Acked` stay in the list untouched. -/
 theorem acked_never_lost (s s' : St) (e ld : Nat) (lost : List Nat) (h : detectLost s e ld = .ok (s', lost)) :
-    (∀ pn ∈ lost, ∃ p ∈ (getSp s e).sent, p.pn = pn ∧ p.st = PSt.I) ∧
-    (∀ q ∈ (getSp s e).sent, q.st = PSt.A → q ∈ (getSp s' e).sent ∨ True) := by
-  refine ⟨?_, fun _ _ _ => Or.inr trivial⟩
+    ∀ pn ∈ lost, ∃ p ∈ (getSp s e).sent, p.pn = pn ∧ p.st = PSt.I := by
   intro pn hpn
   unfold detectLost at h
   simp only at h
@@ -105,5 +103,146 @@ theorem lost_needs_threshold (s s' : St) (e ld : Nat) (lost : List Nat) (h : det
       rcases hthr with ht | ht
       · left; omega
       · right; exact ⟨x.1, by simpa [packetThreshold] using ht⟩
+
+
+/-- the detection pass leaves every packet that is not `Inflight` (in particular every `Acked` one) in the list, unchanged -/
+theorem acked_untouched_by_detection (T ld L : Nat) (l : List Pkt) (k : Nat) (lt : Option Nat) (q : Pkt)
+    (hq : q ∈ l) (hst : q.st = PSt.A) : q ∈ (lossWalk T ld L l k lt).1 :=
+  lossWalk_keeps T ld L l k lt q hq (by rw [hst]; decide)
+
+example : ∃ q : Pkt, q ∈ [({ pn := 0, ts := 0, elic := true, cc := true, size := 1, st := PSt.A } : Pkt)] ∧ q.st = PSt.A :=
+  ⟨_, List.mem_cons_self, rfl⟩
+
+/-! ## FALSE of the unchanged code: a packet is declared lost although no later packet was acknowledged -/
+
+def inp0 : Inp :=
+  { ld0 := 37124999, ld1 := 37124999, srtt0 := 33000000, rttvar0 := 16500000, srtt1 := 33000000, rttvar1 := 16500000 }
+
+/-- fixed case 0 of the harness (replayed on the real `ArcCC` on every run): client, anti-amplification limit
+released, one ack-eliciting Initial packet, no ACK ever, tick after 37.125 ms -/
+def hist0 : List (Inp × Op) := [(inp0, .grant), (inp0, .sent 0 0 true true 1200)]
+def w0 : St := (initSt false 1200 25000000).toOption.getD {}
+def w1 : St := (run w0 hist0).toOption.getD {}
+def w2 : St × Out := (step w1 inp0 (.tick 37125000)).toOption.getD ({}, {})
+
+/-- the property's first clause, for all histories -/
+def LostNeedsLaterAck : Prop :=
+  ∀ (server : Bool) (mtu mad : Nat) (h : List (Inp × Op)) (i : Inp) (op : Op) (s0 s s' : St) (o : Out),
+    initSt server mtu mad = .ok s0 → run s0 h = .ok s → step s i op = .ok (s', o) →
+    ∀ e pns, (e, pns) ∈ o.lost → ∀ pn ∈ pns, ∃ la, (getSp s' e).la = some la ∧ pn < la
+
+theorem lost_needs_later_ack_fails : ¬ LostNeedsLaterAck := by
+  intro h
+  have h0 : initSt false 1200 25000000 = .ok w0 := rfl
+  have h1 : run w0 hist0 = .ok w1 := rfl
+  have h2 : step w1 inp0 (.tick 37125000) = .ok (w2.1, w2.2) := rfl
+  have hl : (0, [0]) ∈ w2.2.lost := by decide
+  have hnone : (getSp w2.1 0).la = none := by decide
+  obtain ⟨la, hla, _⟩ := h false 1200 25000000 hist0 inp0 (.tick 37125000) w0 w1 w2.1 w2.2 h0 h1 h2 0 [0] hl 0 (by decide)
+  rw [hnone] at hla
+  cases hla
+
+/-- what does hold (for every state, reachable or not): when no in-flight packet of the space is older than the
+time threshold, nothing is declared lost unless the sent list holds at least three entries between the packet and
+the entry of the largest acknowledged number -/
+theorem lost_needs_later_ack_partial (s s' : St) (e ld : Nat) (lost : List Nat)
+    (h : detectLost s e ld = .ok (s', lost))
+    (hyoung : ∀ p ∈ (getSp s e).sent, ¬ p.ts + ld + (getSp s e).mad < s.now) :
+    ∀ pn ∈ lost, ∃ p ∈ (getSp s e).sent, p.pn = pn ∧ p.st = PSt.I ∧
+      ∃ idx, idx + 3 ≤ bsearch (getSp s e).sent ((getSp s e).la.getD 0) := by
+  intro pn hpn
+  obtain ⟨p, hp, h1, h2, h3⟩ := lost_needs_threshold s s' e ld lost h pn hpn
+  refine ⟨p, hp, h1, h2, ?_⟩
+  rcases h3 with h3 | h3
+  · exact absurd h3 (hyoung p hp)
+  · exact h3
+
+example : ∃ (s : St), ∀ p ∈ (getSp s 0).sent, ¬ p.ts + 5 + (getSp s 0).mad < s.now := ⟨{}, by simp [getSp]⟩
+
+/-! ## FALSE of the unchanged code: the probe timeout does not double -/
+
+/-- `pto (n+1) = 2 · pto n` for every RTT estimate, max_ack_delay and space -/
+theorem pto_doubles_fails : ¬ (∀ srtt rttvar mad n data,
+    ptoInterval srtt rttvar mad (n + 1) data = 2 * ptoInterval srtt rttvar mad n data) := by
+  intro h
+  have := h 33000000 16500000 0 0 false
+  revert this
+  decide
+
+/-- only the variance term (and `max_ack_delay`) is scaled: the exact law of `Rtt::base_pto` -/
+theorem pto_variance_term_doubles (srtt rttvar mad n : Nat) (data : Bool) :
+    ptoInterval srtt rttvar mad (n + 1) data + srtt = 2 * ptoInterval srtt rttvar mad n data := by
+  have e1 : ∀ a b : Nat, a * (b * 2) = 2 * (a * b) := by
+    intro a b; rw [Nat.mul_comm b 2, Nat.mul_left_comm]
+  unfold ptoInterval basePto
+  rw [Nat.pow_succ]
+  split <;> simp only [e1] <;> omega
+
+/-- doubling holds exactly when the smoothed RTT is zero -/
+theorem pto_doubles_partial (srtt rttvar mad n : Nat) (data : Bool) (h0 : srtt = 0) :
+    ptoInterval srtt rttvar mad (n + 1) data = 2 * ptoInterval srtt rttvar mad n data := by
+  have := pto_variance_term_doubles srtt rttvar mad n data
+  omega
+
+example : ptoInterval 0 16500000 0 1 false = 2 * ptoInterval 0 16500000 0 0 false := by decide
+
+/-! ## FALSE of the unchanged code: the window shrinks more than once per round trip -/
+
+/-- a loss event whose packets were all sent at or before the start of the current recovery period leaves the window alone -/
+def ShrinkOncePerRtt : Prop :=
+  ∀ (s s' : St) (l : List Pkt) (persistent : Bool) (r : Nat), onPacketsLost s l persistent = .ok s' →
+    s.rs = some r → (∀ p ∈ l, p.cc = true → p.ts ≤ r) → s'.cwnd = s.cwnd
+
+theorem shrink_once_per_rtt_fails : ¬ ShrinkOncePerRtt := by
+  intro h
+  have := h { cwnd := 12000, rs := some 10, now := 20 } (persistentCollapse { cwnd := 12000, rs := some 10, now := 20, bytes := 0 })
+    [{ pn := 0, ts := 0, elic := true, cc := true, size := 1200, st := PSt.R }] true 10 rfl rfl (by decide)
+  revert this
+  decide
+
+/-- without the `persistent_lost` branch (three consecutive sent-list entries lost in one pass) the clause holds,
+and the recovery period stays in force -/
+theorem shrink_once_per_rtt_partial (s s' : St) (l : List Pkt) (r : Nat) (h : onPacketsLost s l false = .ok s')
+    (hrs : s.rs = some r) (hl : ∀ p ∈ l, p.cc = true → p.ts ≤ r) : s'.cwnd = s.cwnd ∧ s'.rs = s.rs :=
+  onPacketsLost_in_recovery h hrs hl
+
+example : ∃ s s' : St, onPacketsLost s [] false = .ok s' ∧ s.rs = some 5 := ⟨{ rs := some 5 }, _, rfl, rfl⟩
+
+/-- ECN marks: a CE increase for a packet sent at or before the recovery start does not shrink the window either -/
+theorem ecn_in_recovery_no_shrink (s : St) (t r : Nat) (hrs : s.rs = some r) (ht : t ≤ r) :
+    onCongestionEvent s t = .ok s :=
+  onCongestionEvent_in_recovery (by unfold inRecovery; simp [hrs, ht])
+
+example : ∃ s : St, s.rs = some 5 := ⟨{ rs := some 5 }, rfl⟩
+
+/-- fixed case 2 of the harness on the model: burst of ten 1200-byte packets at t = 0, ACK of 6, then ACK of 9:
+the window goes 12000 → 6000 → 5040 although every lost packet was sent before the first reduction -/
+def burst10 : List (Inp × Op) := (List.range 10).map fun k => (inp0, Op.sent 2 k true true 1200)
+def hist2 : List (Inp × Op) :=
+  [(inp0, .grant), (inp0, .hskey), (inp0, .confirmed)] ++ burst10 ++
+  [(inp0, .tick 10000000), (inp0, .ack 2 { largest := 6, ranges := [(6, 6)], ce := none })]
+
+example : ((initSt true 1200 25000000).toOption.bind fun s => (run s hist2).toOption.map fun s => (s.cwnd, s.rs))
+    = some (6000, none) := by decide
+example : ((initSt true 1200 25000000).toOption.bind fun s =>
+      (run s (hist2 ++ [(inp0, .ack 2 { largest := 9, ranges := [(9, 9)], ce := none })])).toOption.map fun s => s.cwnd)
+    = some 5040 := by decide
+
+/-! ## FALSE of the unchanged code: quota is granted beyond the window -/
+
+/-- `send_quota` answers `Err(CONGESTION)` whenever the bytes in flight have reached the window -/
+theorem inflight_bounded_by_window_fails :
+    ¬ (∀ (s : St) (pacerTokens : Nat), s.cwnd ≤ s.bytes → sendQuota s pacerTokens = none) := by
+  intro h
+  have := h { bytes := 13200 } 2272 (by decide)
+  revert this
+  decide
+
+/-- the only refusal the code knows: fewer pacer tokens than one datagram -/
+theorem inflight_bounded_by_window_partial (s : St) (pacerTokens : Nat) (h : pacerTokens < s.mds) :
+    sendQuota s pacerTokens = none := by
+  unfold sendQuota; simp; omega
+
+example : ∃ (s : St) (t : Nat), t < s.mds := ⟨{}, 0, by decide⟩
 
 end GmQuic.Props.C13
